@@ -849,6 +849,26 @@ mod cup {
                             }
                         }
                     }
+                    "ext" => {
+                        use omaha_client::http_uri_ext::HttpUriExt;
+                        let q: Vec<String> = v["query"].as_array().map(|a| a.iter().map(|s| s.as_str().unwrap().to_string()).collect()).unwrap_or_default();
+                        let qs = if q.is_empty() { String::new() } else { format!("?{}", q.join("&")) };
+                        let base = format!("http://{}{}{}", v["auth"].as_str().unwrap(), v["path"].as_str().unwrap(), qs);
+                        match base.parse::<http::Uri>() {
+                            Ok(u) => match u.extend_dir_with_path(v["sub"].as_str().unwrap()) {
+                                Ok(r) => {
+                                    let exp = format!("http://{}{}{}", v["auth"].as_str().unwrap(), v["exp"].as_str().unwrap(), qs);
+                                    // an absent path is the root path
+                                    let exp2 = if v["exp"].as_str().unwrap().is_empty() { format!("http://{}/{}", v["auth"].as_str().unwrap(), qs) } else { exp.clone() };
+                                    if r.to_string() != exp && r.to_string() != exp2 {
+                                        bad.push(("extend_dir_with_path differs from the model".into(), json!({"base": base, "got": r.to_string(), "exp": exp})));
+                                    }
+                                }
+                                Err(e) => bad.push(("extend_dir_with_path failed".into(), json!(format!("{} -> {:?}", base, e)))),
+                            },
+                            Err(_) => {}
+                        }
+                    }
                     _ => {
                         // single-bit flips of every field of genuine exchanges
                         use rand::{Rng, SeedableRng};
